@@ -239,10 +239,11 @@ def describe_factory(run_):
         info = run_.info[tid - 1]
         r = info["case"]
         if r["kind"] == "file":
-            sig = {"P_new_file_not_private": "%s:umask=%s" % (r["target"], r["umask"]),
+            sig = {"P_new_file_not_private": r["target"],
                    "P_write_failed": "%s:%s:%s" % (r["ktype"], r["wpass"], r["wres"]),
-                   "P_roundtrip_failed": "%s:%s:%s:%s" % (r["ktype"], r["wpass"], r["route"], r["lres"]),
-                   "P_loaded_without_passphrase": "%s:%s:%s:%s" % (r["ktype"], r["wpass"], r["lpass"], r["route"]),
+                   "P_roundtrip_failed": "%s:%s:%s" % (K.family(r["ktype"]), r["route"], r["lres"]),
+                   "P_loaded_without_passphrase": "%s:%s:load=%s" % (K.family(r["ktype"]), r["route"],
+                                                                     "none" if r["lpass"] == "none" else "wrong"),
                    "P_loaded_other_key": "%s:%s:%s" % (r["ktype"], r["route"], r["lkey"]),
                    "C_load_answer_outside_model": "%s:%s:%s:%s" % (r["route"], "sealed" if r["wpass"] not in ("none", "empty") else r["wpass"], r["lpass"], r["lres"]),
                    }.get(clause, "%s:%s" % (r["ktype"], r["target"]))
@@ -254,7 +255,7 @@ def describe_factory(run_):
         else:
             a, b = r["a"], r["b"]
             rel = "same" if (a["type"], a["mat"]) == (b["type"], b["mat"]) else "different"
-            sig = "%s/%s~%s/%s:%s" % (a["type"], a["kind"], b["type"], b["kind"], rel)
+            sig = "%s:%s" % (K.family(a["type"]) if rel == "same" else "%s~%s" % tuple(sorted((K.family(a["type"]), K.family(b["type"])))), rel)
             what = ("key objects %s (%s) and %s (%s) hold %s public material: ==:%s reversed:%s !=:%s hash equal:%s "
                     "fingerprint equal:%s bytes equal:%s error:%s; clause %s fails" % (
                         a, info["a"], b, info["b"], rel, r["eq"], r["eq_rev"], r["ne"], r["heq"], r["fpeq"], r["beq"],
@@ -264,19 +265,30 @@ def describe_factory(run_):
 
 
 def run(c):
-    # ---- M: the property on the model, mutations as sensitivity runs
-    r = c.mc_holds("KeyIO", cfg_text(constants={"Defects": set()}, invariants=P_INVS + C_INVS + ["Emit"]),
-                   name="as-stated (Defects = {})", workers=1)
-    files = sorted({tuple(x[1:7]) for x in r.printed("FILE")})
-    cmps = r.printed("CMP")
-    if not files or not cmps or not any(x[3] for x in cmps) or all(x[3] for x in cmps):
-        raise Machinery("vacuous model: %d file cases, %d comparisons" % (len(files), len(cmps)))
-    for d, inv in ([SENS[c.seed % len(SENS)]] if c.quick else SENS):      # quick: one toggle, rotating with the seed
-        c.mc("KeyIO", cfg_text(constants={"Defects": {d}}, invariants=P_INVS), expect=inv, name="sensitivity " + d)
+    replay = getattr(c, "replay_file", None)
+    if replay:
+        # bin/check C36 --replay <file>: the recorded abstract case again (fresh concrete keys), 5 times
+        import json
+        rec = json.load(open(replay))["replay"]["case"]
+        files = [(rec["ktype"], rec["target"], rec["umask"], rec["wpass"], rec["lpass"], rec["route"])] \
+            if rec["kind"] == "file" else []
+        cmps = [["CMP", rec["a"], rec["b"], None]] if rec["kind"] == "cmp" else []
+        reps_f = reps_c = 5
+    else:
+        # ---- M: the property on the model, mutations as sensitivity runs
+        r = c.mc_holds("KeyIO", cfg_text(constants={"Defects": set()}, invariants=P_INVS + C_INVS + ["Emit"]),
+                       name="as-stated (Defects = {})", workers=1)
+        files = sorted({tuple(x[1:7]) for x in r.printed("FILE")})
+        cmps = r.printed("CMP")
+        if not files or not cmps or not any(x[3] for x in cmps) or all(x[3] for x in cmps):
+            raise Machinery("vacuous model: %d file cases, %d comparisons" % (len(files), len(cmps)))
+        # quick: one toggle, rotating with the seed; thorough: all six
+        for d, inv in ([SENS[c.seed % len(SENS)]] if c.quick else SENS):
+            c.mc("KeyIO", cfg_text(constants={"Defects": {d}}, invariants=P_INVS), expect=inv, name="sensitivity " + d)
+        reps_f, reps_c = (1, 1) if c.quick else (6, 12)
 
     # ---- RP: every abstract case on the real code
     run_ = Runner(c)
-    reps_f, reps_c = (1, 1) if c.quick else (6, 12)
     for _ in range(reps_f):
         for case in files:
             run_.file_case(case)
